@@ -24,7 +24,12 @@ import (
 // - delegation.Token
 // - invocation.Token
 func FromSealed(data []byte) (Token, cid.Cid, error) {
-	tkn, err := FromDagCbor(data)
+	node, err := envelope.DecodeSealed(data)
+	if err != nil {
+		return nil, cid.Undef, err
+	}
+
+	tkn, err := fromIPLD(node)
 	if err != nil {
 		return nil, cid.Undef, err
 	}
@@ -41,7 +46,12 @@ func FromSealed(data []byte) (Token, cid.Cid, error) {
 func FromSealedReader(r io.Reader) (Token, cid.Cid, error) {
 	cidReader := envelope.NewCIDReader(r)
 
-	tkn, err := FromDagCborReader(cidReader)
+	node, err := envelope.DecodeSealedReader(cidReader)
+	if err != nil {
+		return nil, cid.Undef, err
+	}
+
+	tkn, err := fromIPLD(node)
 	if err != nil {
 		return nil, cid.Undef, err
 	}
